@@ -106,7 +106,7 @@ func calleeName(callee *ssa.Function, fnTerm *Term) string {
 		return funcKey(callee)
 	}
 	if fnTerm.Op == "method" {
-		return "method:" + strings.ReplaceAll(fnTerm.Aux, modulePath+".", "")
+		return methodKey(fnTerm.Aux)
 	}
 	if fnTerm.Op == "builtin" {
 		return "builtin:" + fnTerm.Aux
